@@ -85,7 +85,9 @@ CLAIMS = {
          "inferFn_store_invariant for every modelled form (Vec indexing is Option, a Rust panic a stuck state); genFn_justified and "
          "infer_sound / infer_sound_nofield (typecheck_fn ends without a diagnostic => the elaborated body satisfies the declarative "
          "judgement Model/InferSpec.lean::Wt with types compared in the final store, modulo wildcard array lengths, for every binder "
-         "table; no per-function certificate) for all modelled forms EXCEPT x.m(a), T::m(x, a), array literals and struct literals, "
+         "table; no per-function certificate) for all modelled forms — constructor expressions, struct literals (one rel per field against the instantiated parameter of its "
+         "declared position, via the reordering lemmas), array literals (rel item element-type per item; the length is not stated), "
+         "constructor / struct / typed-int patterns included — EXCEPT the two method-call forms x.m(a) and T::m(x, a), "
          "which the explicit decidable hypothesis r.gen.outside = false excludes; field accesses are only judged by 'the "
          "StructFieldAccess was queued and solve ended clean'; infer_sound_partial (certificate version) is kept and the certificate is "
          "still evaluated on every tied function. TIE (gv infer through two add-only cfg(goml_verif) observer hooks, vs gomlmodel "
